@@ -45,6 +45,9 @@ type Ctx struct {
 	Advisory []string
 	Floors   map[string]int // rule -> minimum number of obligations expected
 	Extra    map[string]interface{}
+	// RegistrationIsEvent: Precedes treats a `defer`/`go` statement matched by `first` as the event itself (its
+	// registration), instead of ignoring it because the deferred call has not run yet.
+	RegistrationIsEvent bool
 }
 
 func newCtx(p *Program, prop, tier string) *Ctx {
